@@ -70,6 +70,9 @@ def gen_metrics():
         _has(r"pos\[0\]\s*=\s*i\s*%\s*width;\s*pos\[1\]\s*=\s*\(i\s*/\s*width\)\s*%\s*height;\s*pos\[2\]\s*=\s*i\s*/\s*width\s*/\s*height;", po),
         _has(r"x\s*\+\s*width\s*\*\s*y\b", io),
         _has(r"x\s*\+\s*width\s*\*\s*\(y\s*\+\s*height\s*\*\s*z\)", io),
+        # generic-D branches (Metrics.position_loop / index_loop; C16_grid_index_bij_generic)
+        _has(r"for\s*\(s,\s*p\)\s*in\s*self\.size\.into_iter\(\)\.zip\(&mut\s+pos\)\s*\{\s*\*p\s*=\s*i\s*%\s*s;\s*i\s*=\s*i\s*/\s*s;\s*\}", po),
+        _has(r"\.zip\(pos\)\s*\.scan\(1,\s*\|prefix,\s*\(s,\s*p\)\|\s*\{\s*let\s+a\s*=\s*\*prefix\s*\*\s*p;\s*\*prefix\s*\*=\s*usize::from\(s\);\s*Some\(a\)\s*\}\)\s*\.sum\(\)", io),
     ]
     out += "Definition grid_index_shape : list bool := [%s]%%list.\n" % "; ".join("true" if b else "false" for b in shape)
 
@@ -207,6 +210,6 @@ MANIFEST = dict(
     design_ref="DESIGN.md §7 C16",
     note="Trusted: Coq kernel; the model<->code tie is the translator (operators and expression shapes) plus differential runs (960/9600 "
          "cases); SpecFloat = hardware f64 sub/div; integer sums do not overflow and f64 sums of integer-valued weights are exact (contract). "
-         "Grid theorems are for D = 2 and 3 (the only constructible grids; the generic-D branch is modelled, unreachable, not proved). No axioms.",
+         "Grid neighbour / cut theorems are for D = 2 and 3 (the only constructible grids); the index bijection is proved for every D (C16_grid_index_bij_generic: the generic mixed-radix loops and the 2D/3D fast paths agree). No axioms.",
     technique="Coq proof + model/implementation correspondence + definitions evaluated on every implementation output",
 )
